@@ -184,7 +184,7 @@ func monitor(c hxlib.Case, outs []string) (vs []hxlib.Violation) {
 			if len(sp) == 2 {
 				batch = sp[1]
 			}
-			key := string(unhx(f[1]))
+			key := normKey(string(unhx(f[1])))
 			if strings.HasPrefix(o, "ok") {
 				w := store[key]
 				if w == nil {
@@ -237,7 +237,7 @@ func monitor(c hxlib.Case, outs []string) (vs []hxlib.Violation) {
 					}
 					if w := store[ce.key]; w != nil && !w.opaque && !ce.opaque && len(w.payloads) > 0 {
 						want := w.payloads[len(w.payloads)-1]
-						if ce.typ != "ok" && f[0] == "m" && (cls.Kind == "create" || cls.Kind == "update") && cls.Arg == ce.key && len(cls.Payload) >= 2 {
+						if ce.typ != "ok" && f[0] == "m" && (cls.Kind == "create" || cls.Kind == "update") && normKey(cls.Arg) == ce.key && len(cls.Payload) >= 2 {
 							want = cls.Payload[1:] // the notification of the write being acknowledged in this very batch
 						}
 						if !jsonEqualModuloMeta(want, ce.body) {
@@ -252,23 +252,23 @@ func monitor(c hxlib.Case, outs []string) (vs []hxlib.Violation) {
 			switch cls.Kind {
 			case "create", "update":
 				if ownOK && len(cls.Payload) >= 2 {
-					w := store[cls.Arg]
+					w := store[normKey(cls.Arg)]
 					if w == nil {
 						w = &written{}
-						store[cls.Arg] = w
+						store[normKey(cls.Arg)] = w
 					}
 					w.opaque, w.seeded = false, false
 					w.payloads = append(w.payloads, cls.Payload[1:])
 				}
 			case "insert":
 				if ownOK {
-					if w := store[cls.Arg]; w != nil {
+					if w := store[normKey(cls.Arg)]; w != nil {
 						w.opaque = true
 					}
 				}
 			case "delete":
 				if ownOK {
-					delete(store, cls.Arg)
+					delete(store, normKey(cls.Arg))
 				}
 			}
 			// quiet point: one-shot requests and queries are complete
@@ -312,6 +312,9 @@ func judgeTrace(lines []string, head []string) (vs []hxlib.Violation) {
 		if len(f) < 2 || f[0] != "t" {
 			continue
 		}
+		if f[1] == "note" {
+			sc.Expect = nil
+		}
 		if f[1] == "rep" {
 			r := parseReply(unhx(f[2]))
 			switch r.Type {
@@ -331,10 +334,10 @@ func judgeTrace(lines []string, head []string) (vs []hxlib.Violation) {
 			switch c.Kind {
 			case "create", "update":
 				if len(c.Payload) >= 2 {
-					writes[c.Arg] = append(writes[c.Arg], c.Payload[1:])
+					writes[normKey(c.Arg)] = append(writes[normKey(c.Arg)], c.Payload[1:])
 				}
 			case "insert":
-				opaque[c.Arg] = true
+				opaque[normKey(c.Arg)] = true
 			}
 		case "rep":
 			raw := unhx(f[2])
